@@ -91,6 +91,7 @@ func (s *SPIFFE) Run(ctx context.Context) error {
 		return errors.New("already running")
 	}
 
+	verifPoint("spiffe.run.beforeLock")
 	s.lock.Lock()
 	s.log.Info("Fetching initial identity certificate")
 	initialCert, err := s.fetchIdentityCertificate(ctx)
